@@ -4,7 +4,9 @@ Three layers (see coq/theories/Tokens.v, TokensProofs.v, properties/C12.v):
   tie    the literal text of every modelled terminal in beancount.lark and the pattern lark compiles from it
          are pinned (the hand-written recognisers lex_K were written for exactly these);
   corr   codecs of Tokens.v vs the implementation's escape/unescape/_parse_value/_format_value/_splitlines,
-         recognisers vs lark's lexer on the same texts, token assignment histories vs the real token objects
+         recognisers vs lark's lexer on the same texts (lexemes, mutated lexemes, and lexeme + following text:
+         the tie of the extent-stability theorems of TokensStable.v / properties/C06.v), token assignment
+         histories vs the real token objects
          (all evaluated inside Coq with vm_compute);
   monitor the property's own statement on the implementation: from_value(v).value == v, the produced text
          re-lexes (Parser.parse_token and inside a real ledger snippet) as one token of the same type and
@@ -805,6 +807,56 @@ LEXEME_CORPUS = {
 }
 
 
+# what may follow a lexeme directly (extent stability, coq/theories/TokensStable.v): blanks, the separators the
+# code writes, and the characters each boundary_K is about
+CONTINUATIONS = ['', ' ', '\t', '\n', '\r\n', '\r', ', ', ',', ', 234', ',234', ',23', ',2345', ',2012-01-01', '.', '.5', '5', '12',
+                 'a', 'b', 'X', 'USD', '-X', '-', "'", "'.A", '_', '/', '/A', ':C', ':c', ':', ':0', '#', '#b', '^', '"', ';', '; c',
+                 '\n; c', '\n ; c', '\r\n\t;c', '\n\n; c', '\nx', ' ;c', '\xe9', '\u4e2d', ')', '}', '@', '*', 'txn', 'xn', 'T', 'E']
+
+
+def gen_continuation(rng) -> str:
+    if rng.random() < 0.7:
+        return rng.choice(CONTINUATIONS)
+    return ''.join(rng.choice(" \t\n\r,.;:#^\"'-_/0123456789abzABZ\xe9*") for _ in range(rng.randint(1, 5)))
+
+
+def continuation_cases(ctx, impl: Impl, add):
+    """Tie of the extent-stability theorems: for lexemes s of every terminal and texts r, the terminal's real
+    pattern matched at position 0 of s + r (CPython re on the pattern lark compiled, and lark's own lexer
+    restricted to the terminal) must consume exactly what lexr_K consumes (the latter is compared inside Coq:
+    every text added here becomes a `lex K` case of the correspondence)."""
+    rng = ctx.rng
+    n = ctx.scale(12, 120)
+    total = 0
+    for cls in LEXEME_CLASSES:
+        rule = RULE_OF[cls]
+        lk = FN[cls][2]
+        try:
+            pat = re.compile(impl.conf.terminals_by_name[rule].pattern.to_regexp())
+        except Exception as e:  # fail closed
+            ctx.fail('tie', f'compiled-pattern:{rule}', f'cannot compile the pattern of terminal {rule}: {type(e).__name__}', {'terminal': rule})
+            continue
+        lexemes = [s for s in LEXEME_CORPUS.get(cls, []) if is_lexeme(impl, cls, s)]
+        pairs = [(s, r) for s in lexemes for r in CONTINUATIONS]
+        for _ in range(n):
+            s = gen_lexeme(rng, cls)
+            if is_lexeme(impl, cls, s):
+                pairs += [(s, gen_continuation(rng)) for _ in range(3)]
+        for s, r in pairs:
+            text = s + r
+            m = pat.match(text)
+            by_re = m.end() if m else -1
+            by_lark = impl.lark_len(rule, text)
+            if by_re != by_lark:
+                ctx.fail('corr', f'lexeme-continuation:re-vs-lark:{rule}',
+                         f'{rule}: re.match of the compiled pattern consumes {by_re} characters of {text!r}, lark\'s lexer {by_lark}',
+                         {'fn': 'corr', 'k': lk, 'args': [L(text)], 'lexeme': L(s), 'continuation': L(r)})
+            add(lk, L(text))
+            total += 1
+            ctx.dist(f'continuation:{cls}:' + ('same-extent' if by_re == len(s) else 'longer' if by_re > len(s) else 'other'))
+    ctx.count('lexeme_continuation_cases', total)
+
+
 def gen_hist(rng, impl, cls):
     """(init, ops) of valid assignments for the monitor/correspondence."""
     def a_value():
@@ -904,6 +956,8 @@ def run_all(ctx: common.Ctx):
             add(lk, L(z))
             if cls in ('Date', 'Number', 'Bool') or rng.random() < 0.5:
                 add(pk, L(z))
+    # ---- lexeme + following text: the recognisers keep/extend the extent exactly as the real patterns do
+    continuation_cases(ctx, impl, add)
     # ---- codecs on arbitrary text (in and out of the domains)
     for _ in range(n * 3):
         s = gen_text(rng)
@@ -1026,7 +1080,7 @@ def run(ctx: common.Ctx):
     ctx.rule = ('per token class: values of its domain (strings over an alphabet with quote, backslash, every '
                 'str.splitlines boundary, CR CR LF, astral and non-ASCII characters, plus a fixed corpus; dates with '
                 'years 1..9999 skewed below 1000; non-negative decimals of 1..30 digits with exponents -40..40, trailing zeros and zeros with exponent), lexemes drawn from a '
-                'grammar of each terminal and mutated lexemes, and assignment histories of 1..7 value/raw_text/indent '
+                'grammar of each terminal, mutated lexemes and lexemes followed directly by a text (blanks, ", ", digits, letters, punctuation; lexer comparison only), and assignment histories of 1..7 value/raw_text/indent '
                 'assignments; a case is non-trivial when it is a domain value, a text lark lexes as one token, or a '
                 'history of >= 2 assignments; distinct by (check, class, payload)')
     ctx.assumptions += [
